@@ -5,7 +5,7 @@
     export factors (1,0,0), step B export factors = grid supply factor, no user cogeneration factors,
     all factors >= 0).  [reg_setb] decides it; the check evaluates it on the four prepared location
     sets dumped from the compiled code on every run. *)
-From Cteepbd Require Import Model.Factors Proofs.StepFacts Proofs.ColFacts Proofs.EpFacts Proofs.DataEquiv Proofs.RerFacts.
+From Cteepbd Require Import Model.Factors Proofs.StepFacts Proofs.ColFacts Proofs.EpFacts Proofs.DataEquiv Proofs.RerFacts Proofs.RerCogen.
 Open Scope Qc_scope.
 
 (** RER = ren / (ren + nren) of the reported step B primary energy, 0 when the total is 0 *)
@@ -72,6 +72,16 @@ Section Hyp.
     revert T L. generalize (ren_onst ep) (ren_nrb ep) (rtot (t_we_b ep)). intros a b t T L.
     toQ. absQ. cbn in *. unfold Qdiv. assert (0 < / Qt)%Q by (apply Qinv_lt_0_compat; lra). nra.
   Qed.
+
+  Lemma nested_onst_le_nrb_nearby_cogen :
+    (forall cr, nearby_fuel cr = false -> a_cgnus (mk_ctx cr lm (c_data c)) = 0) ->
+    a_exp_src (mk_ctx ELECTRICIDAD lm (c_data c)) EL_INSITU = 0 -> t_rer_onst ep <= t_rer_nrb ep.
+  Proof.
+    intros Hf Hp. pose proof (onst_le_nrb_nearby_cogen fs0 c area lm n ep Hrs Hn Hd Hwf Hpos Hep Hf Hp) as L.
+    unfold t_rer_onst, t_rer_nrb. destruct (qltb_spec 0 (rtot (t_we_b ep))) as [T|T]; [|apply Qcle_refl].
+    revert T L. generalize (ren_onst ep) (ren_nrb ep) (rtot (t_we_b ep)). intros a b t T L.
+    toQ. absQ. cbn in *. unfold Qdiv. assert (0 < / Qt)%Q by (apply Qinv_lt_0_compat; lra). nra.
+  Qed.
 End Hyp.
 
 (** ** Property theorems *)
@@ -109,6 +119,21 @@ Theorem C13_nested_partial : forall fs0 c area lm n ep,
   0 <= t_rer_onst ep /\ t_rer_onst ep <= t_rer_nrb ep /\ t_rer_nrb ep <= t_rer ep.
 Proof.
   intros fs0 c area lm n ep Hrs Hn. pose proof (dom_of_nonneg _ Hn). intros. repeat split; [eapply onst_rer_nonneg|eapply nested_onst_le_nrb_no_export|eapply nested_nrb_le_rer]; eassumption.
+Qed.
+
+(** ... and for every building that may export cogenerated electricity, provided it exports no on-site electricity and
+    every cogeneration fuel is a nearby carrier that is not generated on site (biomass, densified biomass, district
+    networks): the perimeter then contains the renewable energy of the fuel, which bounds what it subtracts for the
+    exported electricity.  The two recorded findings are the two hypotheses failing. *)
+Theorem C13_nested_nearby_cogeneration : forall fs0 c area lm n ep,
+  reg_set fs0 -> nonneg_data (c_data c) -> wf n (c_data c) -> (0 < n)%nat ->
+  energy_performance c fs0 0 area lm = Ok ep ->
+  (forall cr, nearby_fuel cr = false -> a_cgnus (mk_ctx cr lm (c_data c)) = 0) ->
+  a_exp_src (mk_ctx ELECTRICIDAD lm (c_data c)) EL_INSITU = 0 ->
+  0 < rtot (t_we_b ep) ->
+  0 <= t_rer_onst ep /\ t_rer_onst ep <= t_rer_nrb ep /\ t_rer_nrb ep <= t_rer ep.
+Proof.
+  intros fs0 c area lm n ep Hrs Hn. pose proof (dom_of_nonneg _ Hn). intros. repeat split; [eapply onst_rer_nonneg|eapply nested_onst_le_nrb_nearby_cogen|eapply nested_nrb_le_rer]; eassumption.
 Qed.
 
 Theorem C13_rer_zero_total : forall ep, rtot (t_we_b ep) = 0 -> t_rer ep = 0 /\ t_rer_nrb ep = 0 /\ t_rer_onst ep = 0.
@@ -166,12 +191,35 @@ Proof.
   - split; [|split]; [vm_compute; reflexivity|apply Qc_is_canon; vm_compute; reflexivity|vm_compute; reflexivity].
 Qed.
 
+(** non-vacuity of C13_nested_nearby_cogeneration: biomass-fuelled cogeneration that exports 28 of its 48 kWh *)
+Definition ex_factors_biomass : list Factor :=
+  match normalize_factors
+          [mkFactor ELECTRICIDAD RED SUMINISTRO STEP_A (mkRNC (qfrac 414 1000) (qfrac 1954 1000) (qfrac 331 1000)) [];
+           mkFactor GASNATURAL RED SUMINISTRO STEP_A (mkRNC (qfrac 5 1000) (qfrac 1190 1000) (qfrac 252 1000)) [];
+           mkFactor BIOMASA RED SUMINISTRO STEP_A (mkRNC (qfrac 1003 1000) (qfrac 34 1000) (qfrac 18 1000)) []]
+          default_red default_red with
+  | Ok fs => fs | Err _ => [] end.
+
+Example C13_nearby_cogeneration_example :
+  let data := [EUsed 0 ELECTRICIDAD ILU [qz 20] []; EUsed 0 BIOMASA COGEN [qz 108] []; EProd 0 EL_COGEN [qz 48] []; EUsed 0 GASNATURAL CAL [qz 100] []] in
+  reg_set ex_factors_biomass /\ nonneg_data data /\
+  (forall cr, nearby_fuel cr = false -> a_cgnus (mk_ctx cr false data) = 0) /\
+  a_exp_src (mk_ctx ELECTRICIDAD false data) EL_INSITU = 0 /\ 0 < a_exp_src (mk_ctx ELECTRICIDAD false data) EL_COGEN /\
+  exists ep, energy_performance (mkComponents [] data (mkNeeds None None None)) ex_factors_biomass 0 1 false = Ok ep /\ 0 < rtot (t_we_b ep).
+Proof.
+  cbv zeta. split; [apply reg_setb_ok; vm_compute; reflexivity|]. split; [apply nonneg_datab_ok; vm_compute; reflexivity|].
+  split; [intros cr Hcr; destruct cr; try discriminate Hcr; apply Qc_is_canon; vm_compute; reflexivity|].
+  split; [apply Qc_is_canon; vm_compute; reflexivity|]. split; [vm_compute; reflexivity|].
+  eexists. split; [vm_compute; reflexivity|vm_compute; reflexivity].
+Qed.
+
 Print Assumptions C13_rer_def.
 Print Assumptions C13_primary_energy_nonneg.
 Print Assumptions C13_rer_range.
 Print Assumptions C13_nrb_le_rer.
 Print Assumptions C13_onst_nonneg.
 Print Assumptions C13_nested_partial.
+Print Assumptions C13_nested_nearby_cogeneration.
 Print Assumptions C13_rer_zero_total.
 Print Assumptions C13_nested_refuted.
 Print Assumptions C13_nearby_negative_refuted.
